@@ -341,8 +341,11 @@ cdef class CellIndexingNNPS(NNPS):
         cdef double* xmax = self.xmax.data
         cdef double* xmin = self.xmin.data
 
-        self.J = <u_int> (1 + log2(ceil((xmax[0] - xmin[0])/self.cell_size)))
-        self.K = <u_int> (1 + log2(ceil((xmax[1] - xmin[1])/self.cell_size)))
+        # Number of bits for the x and y cell indices.  A direction without
+        # any extent still has one cell, and the index of its neighboring
+        # cell must not spill into the bits of the next direction.
+        self.J = <u_int> (1 + log2(fmax(1, ceil((xmax[0] - xmin[0])/self.cell_size))))
+        self.K = <u_int> (1 + log2(fmax(1, ceil((xmax[1] - xmin[1])/self.cell_size))))
 
         for i in range(self.narrays):
             free(self.keys[i])
